@@ -425,7 +425,10 @@ def startup_matrix(_):
   from .. import daemonconf
   bad = []
   n = 0
-  for program in ('carbon-cache', 'carbon-relay', 'carbon-aggregator'):
+  # (the other daemons' sections of the same carbon.conf may say "on": every daemon reads its own section)
+  others = {'carbon-cache': ('relay', 'aggregator'), 'carbon-relay': ('cache',), 'carbon-aggregator': ('cache', 'relay'),
+            'carbon-aggregator-cache': ('cache', 'aggregator')}
+  for program in ('carbon-cache', 'carbon-relay', 'carbon-aggregator', 'carbon-aggregator-cache'):
     for base in ({}, {'USE_INSECURE_UNPICKLER': 'False'}):
       extra = {'DESTINATIONS': '127.0.0.1:2004:a'} if program != 'carbon-cache' else {}
       try:
@@ -437,6 +440,18 @@ def startup_matrix(_):
       if r['USE_INSECURE_UNPICKLER']:
         bad.append(('config:insecure-unpickler', '%s started with %r ends up with USE_INSECURE_UNPICKLER=%r' % (
           program, base, r['USE_INSECURE_UNPICKLER']), {'startup': program, 'base': base}))
+      # ... and once the service tree is built (what the listeners will read), with the other sections saying "on"
+      secs = {sec: {'USE_INSECURE_UNPICKLER': 'True'} for sec in others[program]}
+      try:
+        r3 = daemonconf.effective(program, dict(base, **extra), keys=['USE_INSECURE_UNPICKLER'], sections=secs, build_service=True)
+      except Exception as e:   # noqa
+        bad.append(('config:exception', 'building the service of %s with %r failed: %s' % (program, base, str(e)[-300:]), {'startup': program}))
+        continue
+      n += 1
+      if r3['USE_INSECURE_UNPICKLER']:
+        bad.append(('config:insecure-unpickler', '%s: its section says %r, the sections %r say USE_INSECURE_UNPICKLER = True; once the service '
+                    'tree is built the listeners read USE_INSECURE_UNPICKLER=%r' % (program, base or 'nothing', sorted(secs), r3['USE_INSECURE_UNPICKLER']),
+                    {'startup': program, 'base': base, 'sections': secs}))
       for var in r.get(daemonconf.ENV_KEY, []):
         if 'UNPICKLER' not in var.upper():
           continue
